@@ -76,7 +76,43 @@ def special(ctx):
     return out
 
 
+def claimed_outputs(ctx):
+    """several inputs in one invocation, some mapping to the same output name (the later one is refused), with and
+    without -k: every input that is REPORTED ok must own, when the compiler exits, a well-formed capture holding its
+    packets -- whatever happened to the inputs after it"""
+    import os, subprocess
+    d = common.workdir("c01claim")
+    mk = lambda n: "import ipv4;\n" + "".join("ipv4::udp::unicast(1.2.3.4:1, 1.2.3.5:2, \"%d-%d\");\n" % (n, i) for i in range(n))
+    layout = [("a/x.rsyn", 5), ("b/x.rsyn", 2), ("y.rsyn", 3), ("c/y.rsyn", 4), ("z.rsyn", 1)]
+    for rel, n in layout:
+        os.makedirs(os.path.dirname(os.path.join(d, rel)) or d, exist_ok=True)
+        open(os.path.join(d, rel), "w").write(mk(n))
+    for keep in (False, True):
+        od = os.path.join(d, "out%d" % keep)
+        os.makedirs(od)
+        args = [common.RESYNTH, "--color", "never", "--out-dir", od] + (["-k"] if keep else []) + [rel for rel, _ in layout]
+        p = subprocess.run(args, cwd=d, stdout=subprocess.PIPE, stderr=subprocess.PIPE, timeout=120)
+        so = p.stdout.decode("utf-8", "replace")
+        ctx.count("several inputs, colliding output names")
+        for rel, n in layout:
+            for l in so.splitlines():
+                if l.startswith(rel + " -> ") and l.rstrip().endswith(" ok"):
+                    out = l[len(rel) + 4:].rstrip()[:-3]
+                    out = out if os.path.isabs(out) else os.path.join(d, out)
+                    try:
+                        ok, recs = common.pcap_records(open(out, "rb").read())
+                    except OSError:
+                        ok, recs = False, None
+                    if not ok or len(recs) != n:
+                        ctx.fail("claimed-output-lost", "%s is reported ok (%d packets) but %s %s when the compiler exits"
+                                 % (rel, n, os.path.basename(out), "does not exist" if recs is None else "holds %d records" % len(recs)),
+                                 {"inputs": {rel2: mk(n2) for rel2, n2 in layout}, "keep": keep, "stdout": so,
+                                  "how": "write the inputs under their relative names, run resynth --out-dir out%s %s from that directory"
+                                         % (" -k" if keep else "", " ".join(rel2 for rel2, _ in layout))})
+
+
 def run(ctx):
+    claimed_outputs(ctx)
     from props.c02 import fix_paths
     import os
     n = 500 if ctx.thorough else 90
@@ -155,6 +191,13 @@ def run(ctx):
 
 def replay(ctx, rp):
     ctx.count("replay")
+    if "inputs" in rp:
+        return claimed_outputs(ctx)
+    if rp.get("source_hex") and "undecodable" in str(rp.get("what", "")) + str(rp.get("class", "")) + "undecodable":
+        d, res = common.run_programs("c01r", {"replay": bytes.fromhex(rp["source_hex"])})
+        if res["replay"].status == "ok":
+            return ctx.fail("statements-lost", "a source with an undecodable line is reported ok", rp)
+        return None
     d, res = common.run_programs("c01r", {"replay": rp["program"]},
                                  files={k: bytes.fromhex(v) for k, v in rp.get("files", {}).items()})
     r = res["replay"]
